@@ -536,6 +536,15 @@ def run_property(prop, module, theorems, tier, seed, nquick, nthorough, feature_
             ok, why = False, 'the reported timer unit is %r, the ticks are nanoseconds' % ([x.get('unit') for x in o['snaps']][:1],)
         if ok and aspect == 'mono':
             ok, why = snaps_wf_monotone(o)
+        if ok and aspect == 'mono' and not outside and not p['threads'] and hyp['NoCollision'] and hyp['LabelsDistinct'] \
+                and hyp.get('LinesKnown', True):
+            # "reading never changes later results": whatever was read, and whenever, the quiescent snapshots still show
+            # the executed line events (the reads are no operations of the specification)
+            skip = set(wit.get('inflight_snaps', []))
+            if len(spec) == len(impl_s):
+                q = [i for i in range(len(spec)) if i not in skip]
+                if [spec_hits(spec[i]) for i in q] != [impl_hits(o['snaps'][i]) for i in q]:
+                    ok, why = False, 'reported hit counts differ from the executed line events (after earlier reads / re-registrations)'
         if ok and aspect in ('hits', 'time') and not outside and 'selfdisable' not in p['features']:
             # (programs whose functions switch their own profiler off legitimately run lines unprofiled)
             ok, why = wrapped_always_enabled(o)
